@@ -39,7 +39,15 @@ def extras():
                                  st.tuples(st.just('set_conic'), sel, f(-2.0, 1.0)),
                                  st.tuples(st.just('set_index'), sel, f(1.3, 1.9)),
                                  st.tuples(st.just('variable_thickness'), sel, f(0.5, 30.0))), max_size=5),
-        tele=st.booleans()))
+        tele=st.booleans(),
+        # whole-number prescription values passed as Python ints; a second batch of edits applied after the round trip to
+        # the original and to the reloaded lens alike
+        ints=st.booleans(),
+        edits2=st.lists(st.one_of(st.tuples(st.just('set_thickness'), sel, f(0.5, 30.0)),
+                                  st.tuples(st.just('set_radius'), sel, f(20.0, 200.0)),
+                                  st.tuples(st.just('set_index'), sel, f(1.3, 1.9)),
+                                  st.tuples(st.just('update'), sel, f(0.0, 1.0)),
+                                  st.tuples(st.just('set_conic'), sel, f(-2.0, 1.0))), max_size=3)))
 
 
 def deep_equal(a, b, path=''):
@@ -119,7 +127,16 @@ class C19(Check):
                 and spec['obj'].get('n', 1.0) == 1.0:
             spec['tele'] = True
             feats.add('telecentric')
-        o = build(spec, with_settings=False)
+        if ex.get('ints'):
+            # conics become whole numbers so that there is something to pass as an int
+            for q in spec['surfs']:
+                if q['R'] != GL.INF and q['type'] == 'standard':
+                    q['k'] = float(int(round(q['k'])))
+            feats.add('int_typed_values')
+        for q in spec['surfs']:
+            if q['type'] == 'chebyshev' and q.get('norm'):
+                q['norm_y'] = round(q['norm'] * 1.3, 6)          # different normalisation lengths in x and y
+        o = build(spec, with_settings=False, ints=bool(ex.get('ints')))
         # settings, with wavelength units
         o.set_aperture(spec['ap']['type'], spec['ap']['value'])
         o.set_field_type(spec['ftype'])
@@ -155,7 +172,10 @@ class C19(Check):
                 continue
             if attr == 'radius' and scale * float(sg.radii[src]) + offset == 0:
                 continue
-            o.pickups.add(src, attr, tgt, scale=scale, offset=offset)
+            if scale == 1.0 and offset == 0.0:
+                o.pickups.add(src, attr, tgt)                  # the defaults (scale 1, offset 0)
+            else:
+                o.pickups.add(src, attr, tgt, scale=scale, offset=offset)
             feats.add('pickup')
         if ex['solve'] and spec['ap']['type'] == 'EPD' and K >= 2:
             k = 2 + ex['solve'][0] % K
@@ -163,8 +183,8 @@ class C19(Check):
             if abs(float(np.ravel(ua)[k - 1])) > 1e-3:
                 o.solves.add('marginal_ray_height', k, ex['solve'][1])
                 feats.add('solve')
-        edited = False
-        for (name, a, v) in ex['edits']:
+        edited = self.apply_edits(o, ex['edits'], K, out)
+        for (name, a, v) in []:
             if name == 'set_thickness':
                 k = 1 + a % K
                 sign = -1.0 if float(np.ravel(o.surface_group.get_thickness(k))[0]) < 0 else 1.0
@@ -213,6 +233,45 @@ class C19(Check):
         if any(fd['vx'] or fd['vy'] for fd in spec['fields']):
             feats.add('vignetting')
         return o, spec, feats, edited
+
+    @staticmethod
+    def apply_edits(o, edits, K, out=None):
+        edited = False
+        for (name, a, v) in edits:
+            if name == 'set_thickness':
+                k = 1 + a % K
+                sign = -1.0 if float(np.ravel(o.surface_group.get_thickness(k))[0]) < 0 else 1.0
+                o.set_thickness(sign * v, k)
+                edited = True
+            elif name == 'set_radius':
+                o.set_radius(v, 1 + a % K)
+            elif name == 'set_conic':
+                k = 1 + a % K
+                if type(o.surface_group.surfaces[k].geometry).__name__ != 'Plane':
+                    o.set_conic(v, k)
+            elif name == 'scale_system':
+                o.scale_system(v)
+                edited = True
+            elif name == 'set_index':
+                # the medium behind any surface, the object surface (object-space medium) included
+                o.set_index(round(v, 6), a % (K + 1))
+                edited = True
+            elif name == 'image_solve':
+                ya, ua = o.paraxial.marginal_ray()
+                if abs(float(np.ravel(ua)[-2])) > 1e-3:
+                    o.image_solve()
+                    edited = True
+            elif name == 'update':
+                o.update()
+            elif name == 'variable_thickness':
+                from optiland.optimization.variable.variable import Variable
+                k = 1 + a % K
+                sign = -1.0 if float(np.ravel(o.surface_group.get_thickness(k))[0]) < 0 else 1.0
+                Variable(o, 'thickness', surface_number=k, apply_scaling=False).update(sign * v)
+                edited = True
+            if out is not None:
+                out.cls('edit_' + name)
+        return edited
 
     def check(self, case, out):
         o, spec, feats, edited = self.make(case, out)
@@ -299,6 +358,21 @@ class C19(Check):
             a = float(np.ravel(getattr(P, nm)())[0])
             b = float(np.ravel(getattr(P2, nm)())[0])
             out.expect('paraxial_identical', a == b or (math.isnan(a) and math.isnan(b)), which=nm, a=a, b=b)
+        # the reloaded lens keeps working like the original: the same further edits (and update()) on both, then the same
+        # prescription again
+        ex2 = case['ex'].get('edits2') or []
+        if ex2:
+            K = len(spec['surfs'])
+            for lens in (o, o2):
+                self.apply_edits(lens, list(ex2) + [('update', 0, 0.0)], K)
+            try:
+                da = json.loads(json.dumps(o.to_dict()))
+                db = json.loads(json.dumps(o2.to_dict()))
+                diff4 = deep_equal(db, da)
+            except TypeError as e:
+                diff4 = 'not serialisable after further edits: %s' % e
+            out.expect('edits_after_reload_act_as_on_the_original', diff4 is None, diff=diff4, edits=[e_[0] for e_ in ex2])
+            out.cls('edited_after_reload')
         out.nt(len(feats) >= 3 or edited)
 
 
